@@ -219,6 +219,11 @@ def check(code, version, env):
     compiles, err, raw = r
     if raw is None:
         return []
+    if version == '3.6':
+        # tokenize.py of 3.6 holds an 'async' NAME back until the next token and, when that is a number or a string,
+        # emits the two in the wrong order (the number / string branches do not flush the held token): put them back in
+        # source order (stable, so zero-width DEDENTs stay in front of the token they precede)
+        raw = sorted(raw, key=lambda t: (t[2], t[3]))
     vt = tuple(int(x) for x in version.split('.'))
     import re as _re
     if (3, 9) <= vt < (3, 12) and _re.search(r'\\\r?\n[ \t\x0b]*(?:#[^\r\n]*)?\r?\n', code):
@@ -234,6 +239,8 @@ def check(code, version, env):
         # every token up to and including that one has been produced by the tokenizer without error
         if not err or err[0] != 'SyntaxError' or err[1] != 'invalid syntax' or not err[2] or not err[3]:
             return []
+        if '<>' in code:
+            return []      # the '<>' error is raised by the tokenizer glue with a position of its own (3.6-3.8)
         upto = (err[2], err[3] - 1)
         raw = [t for t in raw if (t[2], t[3]) <= upto]
         if any(t[0] in ('ERRORTOKEN', 'FSTRING_START') or (t[0] == 'STRING' and _is_fstring_literal(t[1])) for t in raw):
@@ -272,6 +279,9 @@ def check(code, version, env):
             FLAGS.add('indent-from-continuation-line')
         if vt < (3, 9) and e and e[0] == 'NEWLINE' and _re.search(r'\\\r?\n[ \t\x0b]*(?:#[^\r\n]*)?\r?\n', code):
             FLAGS.add('newline-token-for-blank-line-after-continuation')
+        if vt >= (3, 13) and e and g and e[0] == 'FTXT' and g[0] == 'OP' and g[1] in ('{', '}') \
+                and _re.search(r':[^\'"\n]*(?:\{\{|\}\})', code):
+            FLAGS.add('doubled-brace-in-format-spec-3.13')
         if FLAGS:
             sig = sorted(FLAGS)[0]
         how = '' if compiles else ' (tokens up to the parser error at %r)' % (upto,)
